@@ -196,6 +196,11 @@ fn main() {
         // supervisor isolation: run exactly one case
         let blk = &blocks[b as usize];
         let Ok(cmd) = build_valid(&blk.spec) else { std::process::exit(0) };
+        if let Some(v) = mccore::report::load_valid(PROP) {
+            if !cfg!(debug_assertions) && !v.contains(&(b as usize)) {
+                std::process::exit(0);
+            }
+        }
         let mut si = blk.spec.clone();
         si.set(Setting::IgnoreErrors);
         let cmd_i = build_valid(&si).ok();
@@ -226,19 +231,36 @@ fn main() {
         }
     }
 
+    // release-profile pass: the gate does not exist there; explore what the debug pass accepted
+    let valid: Option<std::collections::HashSet<usize>> = if cfg!(debug_assertions) {
+        None
+    } else {
+        Some(mccore::report::load_valid(PROP).unwrap_or_else(|| rep.machinery("release pass needs the debug pass's .work/C01.valid.json (run `./check C01 thorough`)")))
+    };
+    let accepted_list: std::sync::Mutex<Vec<usize>> = Default::default();
     let rejected = std::sync::atomic::AtomicU64::new(0);
     let accepted = std::sync::atomic::AtomicU64::new(0);
     let by_d: Vec<std::sync::atomic::AtomicU64> = (0..4).map(|_| Default::default()).collect();
     par_blocks(blocks.len(), |bi, tid| {
         let b = &blocks[bi];
         let mut h = Hist::new();
-        let cmd = match build_valid(&b.spec) {
-            Ok(c) => c,
-            Err(_) => {
-                rejected.fetch_add(1, std::sync::atomic::Ordering::Relaxed);
-                return;
+        let cmd = match &valid {
+            Some(v) => {
+                if !v.contains(&bi) {
+                    rejected.fetch_add(1, std::sync::atomic::Ordering::Relaxed);
+                    return;
+                }
+                build(&b.spec)
             }
+            None => match build_valid(&b.spec) {
+                Ok(c) => c,
+                Err(_) => {
+                    rejected.fetch_add(1, std::sync::atomic::Ordering::Relaxed);
+                    return;
+                }
+            },
         };
+        accepted_list.lock().unwrap().push(bi);
         accepted.fetch_add(1, std::sync::atomic::Ordering::Relaxed);
         if b.devs.first() != Some(&"requirement-graph") {
             by_d[b.devs.len().min(3)].fetch_add(1, std::sync::atomic::Ordering::Relaxed);
@@ -300,6 +322,11 @@ fn main() {
         }
         rep.merge(&h);
     });
+    if cfg!(debug_assertions) {
+        let mut v = accepted_list.into_inner().unwrap();
+        v.sort();
+        mccore::report::save_valid(PROP, &v);
+    }
     rep.set(
         "bounds",
         json!({
